@@ -2,6 +2,7 @@ package main
 
 import (
 	"fmt"
+	"os"
 	"go/types"
 	"runtime/debug"
 	"sort"
@@ -97,6 +98,9 @@ func (P *Prog) verifyWith(key string, c *Contract, opts VerifyOpts, solv *Solver
 		}
 		fr.MaxRank = maxRank
 		for k := 0; k <= maxRank; k++ {
+			if only := os.Getenv("GOVC_ONLYRANK"); only != "" && only != fmt.Sprint(k) {
+				continue
+			}
 			fr.Ranks = append(fr.Ranks, k)
 			run(k)
 			if fr.Unsupported != "" {
@@ -119,7 +123,7 @@ func (P *Prog) newExec(fn *ssa.Function, key string, c *Contract, rank int) *Exe
 	x := &Exec{P: P, fn: fn, key: key, c: c, decls: NewDecls(), mapSorts: map[string]string{}, rank: rank,
 		loopOf: map[*ssa.BasicBlock]*Loop{}, maxPaths: 6000, maxSteps: 400000,
 		implIfaces: map[string]*types.Interface{}, rtypeUsed: map[int]types.Type{}, inlined: map[string]int{},
-		usedContracts: map[string]bool{}, metaClauses: map[string]bool{}, specDefs: map[string]*specDef{}, entryLets: map[string]Value{}}
+		usedContracts: map[string]bool{}, metaClauses: map[string]bool{}, probeCount: map[string]int{}, specDefs: map[string]*specDef{}, entryLets: map[string]Value{}}
 	if fn != nil {
 		for _, l := range P.Loops(fn) {
 			x.loopOf[l.Header] = l
@@ -165,6 +169,17 @@ func (x *Exec) runTop() {
 			st.assume(Eq(env.evalInt(e), IntLit(int64(x.rank))))
 		}
 	}
+	// config fixlen a=2,b=3 : give parameter slices a concrete length (rank-like)
+	if fl, ok := c.Config["fixlen"]; ok {
+		for _, kv := range strings.Split(fl, ",") {
+			p := strings.SplitN(strings.TrimSpace(kv), "=", 2)
+			if len(p) == 2 {
+				var k int
+				fmt.Sscanf(p[1], "%d", &k)
+				x.concretizeLen(st, env, &Expr{Op: "id", Name: p[0]}, k)
+			}
+		}
+	}
 	for _, l := range c.Lets {
 		v := env.eval(l.E)
 		fr.names[l.Name] = v
@@ -204,6 +219,7 @@ func (x *Exec) runTop() {
 			s2 := st.clone()
 			s2.frames[0].ret = fr.ret
 			s2.assume(eq)
+			x.concretizeHeapRead(s2, subject, env.eval(ve))
 			s2.path = append(s2.path, "case:"+ve.String())
 			if !s2.dead {
 				x.paths++
@@ -291,7 +307,24 @@ func (x *Exec) atReturn(st *State, res []Value) {
 				x.metaClauses[cl.Label] = true
 				continue
 			}
-			x.addObl(st, "ensures", cl.Label, env.evalBool(cl.E), "", cl.Src)
+			g := env.evalBool(cl.E)
+			x.addObl(st, "ensures", cl.Label, g, "", cl.Src)
+			// clause-level vacuity probe: the antecedent of an implication must be satisfiable on
+			// at least one return path (over all paths and ranks), otherwise the clause proves nothing
+			isImpl := cl.E.Op == "bin" && cl.E.Name == "==>"
+			pk := cl.Label
+			if len(st.path) > 0 && strings.HasPrefix(st.path[0], "case:") {
+				pk += "|" + st.path[0]
+			}
+			if isImpl && (x.c.Schema == "" || x.probeCount[pk] < 8) {
+				ante := env.evalBool(cl.E.Args[0])
+				if ante.IsFalse() {
+					continue
+				}
+				x.probeCount[pk]++
+				x.obls = append(x.obls, &Obligation{Name: shortKey(x.key) + "#vacuity:" + cl.Label, Func: x.key, Kind: "vacuity", Label: cl.Label,
+					Rank: x.rank, Hyps: append(append([]Term(nil), st.pc...), ante), Goal: TFalse, decls: x.decls, prog: x, Canary: true, Path: strings.Join(st.path, ">"), inputs: x.inputs})
+			}
 		}
 	}
 	if x.retPaths <= 8 {
@@ -503,3 +536,26 @@ type heapFormal struct {
 }
 
 func innerName(m mapRef, pi int) string { return fmt.Sprintf("%s$in%d", m.name, pi) }
+
+
+// concretizeHeapRead: after assuming (select M ref) == literal for a current heap map M, later
+// reads of that location fold to the literal (used by "cases" on a length stored in the heap).
+func (x *Exec) concretizeHeapRead(st *State, subject, val Value) {
+	ss, ok1 := subject.(Scalar)
+	vs, ok2 := val.(Scalar)
+	if !ok1 || !ok2 {
+		return
+	}
+	if _, lit := vs.T.IsLit(); !lit || !strings.HasPrefix(ss.T.S, "(select ") {
+		return
+	}
+	body := ss.T.S[len("(select ") : len(ss.T.S)-1]
+	e1 := sexprEnd(body, 0)
+	mp, ref := strings.TrimSpace(body[:e1]), strings.TrimSpace(body[e1:])
+	for name, cur := range st.heap {
+		if cur.S == mp {
+			st.heap[name] = Store(cur, Term{ref, SInt}, vs.T)
+			return
+		}
+	}
+}
